@@ -13,15 +13,16 @@
 (* here they are applied to what the reference answers (RefLook, RefPair, ...), which checks the reference itself: the printer's         *)
 (* bracket rules against the reference parser, strip/TFun, the coded orders being total orders, composition of instantiations, the        *)
 (* coded matcher against the reference matcher of lib/HolTerms.                                                                       *)
-EXTENDS X03_Defs, Json
+EXTENDS X03_Machines, Json
 CONSTANTS Depth,       \* Init: cur \in TypesUpTo(Depth)
-          MaxOps, Pats, Targs, Insts, CmpSet, Kinds, Record, EmitAll
+          MaxOps, Pats, Targs, Insts, CmpSet, Cmp3Set, Kinds, Record, EmitAll
 VARIABLES cur, ti, saved, ops, hist, done, fails, init
 vars == <<cur, ti, saved, ops, hist, done, fails, init>>
 
-SA == <<"stv","a">>  SB == <<"stv","b">>  TA == <<"tv","a">>  TB == <<"tv","b">>
 \* named sets for the configurations (cfg files cannot write tuples)
-PatsSmall == { SA, FunT(SA, SB), FunT(SA, SA), TC1("list", SB), TC2("prod", SA, TC1("list", SA)), FunT(TA, SB) }
+PatsSmall == { SA, FunT(SA, SB), FunT(SA, SA), TC2("prod", SA, TC1("list", SA)), FunT(TA, SB) }
+PatsTiny == { FunT(SA, SB), FunT(SA, SA), TC2("prod", SA, TC1("list", SB)) }
+TargsTiny == { FunT(TA, NatT), FunT(NatT, NatT), TC2("prod", TB, TC1("list", TB)), FunT(TA, FunT(TB, SA)) }
 TargsSmall == { TA, FunT(TA, NatT), FunT(NatT, NatT), TC1("list", SB), TC2("prod", TB, TC1("list", TB)), TC2("prod", TB, TC1("list", TA)), FunT(TA, FunT(TB, SA)) }
 PatsAll == TypesUpTo(2)
 TargsAll == TypesUpTo(2)
@@ -31,55 +32,34 @@ InstsAll == { <<>> } \cup { << <<"a", X>> >> : X \in InstRange } \cup { << <<"b"
 InstsSmall == { << <<"a", TB>> >>, << <<"a", SB>>, <<"b", TC1("list", SA)>> >>, << <<"b", FunT(SA, TA)>> >>, << <<"a", TC2("prod", SB, SB)>>, <<"b", SA>> >> }
 CmpSmall == { SA, SB, TA, TB, NatT, TC1("list", TA), FunT(TA, TA), TC2("prod", TA, TA), FunT(SA, TC1("list", TA)), TC1("list", FunT(TA, TA)) }
 CmpAll == TypesUpTo(2)
+Cmp3Tiny == { SB, TA, FunT(TA, TA), TC1("list", TA) }
 None == {}
-KindsAll == {"match", "subst", "fresh", "inst", "save", "conv", "wrap", "cmp", "subst2"}
-KindsMatch == {"match", "subst", "fresh", "save"}
-KindsInst == {"inst", "save", "subst", "subst2", "conv", "wrap"}
-KindsCmp == {"cmp"}
-KindsPair == {"cmp", "match"}
-
-Op(k, P, U, c, s) == [k |-> k, P |-> P, U |-> U, c |-> c, s |-> s]
-St(c, t, s) == [cur |-> c, ti |-> t, saved |-> s]
-
-\* ------------------------------------------------------------------ what the reference answers
-RefLook(T) ==
-  LET s == Strip(T) IN
-  [strip |-> s, refun |-> MkFun(s[1], s[2]), stv |-> VarsSeq(T, "stv"), tv |-> VarsSeq(T, "tv"), tsubs |-> SubsSeq(T), size |-> TSize(T),
-   eqcopy |-> TRUE, heqcopy |-> TRUE, pout |-> "ok", ptoks |-> Toks(T), btoks |-> Toks(T), back |-> ParseToks(Toks(T)), bback |-> ParseToks(Toks(T)),
-   fb |-> ParseToks(FullToks(T)),
-   conv |-> IF HasSTV(T) THEN [out |-> "TypeException", res |-> NoT] ELSE [out |-> "ok", res |-> Conv(T)],
-   convback |-> IF HasSTV(T) THEN NoT ELSE TSubst(Conv(T), BackInst(T))]
-RefPair(T, U) == [eq |-> T = U, eq21 |-> U = T, heq |-> T = U, le12 |-> LeT(T, U), le21 |-> LeT(U, T), lt12 |-> LtT(T, U), lt21 |-> LtT(U, T),
-                  c12 |-> CmpT(T, U), c21 |-> CmpT(U, T)]
-RefTriple(T, U, V) == [le |-> <<LeT(T, U), LeT(U, V), LeT(T, V), LeT(U, T), LeT(V, U), LeT(V, T)>>,
-                       c |-> <<CmpT(T, U), CmpT(U, V), CmpT(T, V), CmpT(U, T), CmpT(V, U), CmpT(V, T)>>]
-\* substitution: exactly the schematic variables of the domain are replaced, everywhere
-SubstClauses(T, s, r1) ==
-  (IF r1 = TSubst(T, s) THEN {} ELSE {"SubstExact"})
-  \cup (IF Functional(s) /\ TyVarsOf(r1) # { v \in TyVarsOf(T) : ~(v[1] = "stv" /\ v[2] \in Keys(s)) }
-                                           \cup UNION { TyVarsOf(Lookup(s, v[2])) : v \in { w \in TyVarsOf(T) : w[1] = "stv" /\ w[2] \in Keys(s) } }
-        THEN {"SubstOnlyDomain"} ELSE {})
-Subst2Clauses(T, s, r, r2, r3) ==
-  (IF r2 = TSubst(T, Compose(s, r)) THEN {} ELSE {"SubstComposes"})
-  \cup (IF r3 = r2 THEN {} ELSE {"SubstComposes"})
+KindsAll == {"match", "subst", "fresh", "inst", "save", "conv", "wrap", "cmp", "cmp3", "subst2"}
+KindsHist == {"match", "subst", "fresh", "inst", "save", "conv", "wrap", "subst2"}
+KindsPair == {"cmp", "cmp3", "match"}
+KindsLook == {"look"}
+KindsCompose == {"inst", "save", "subst2"}
 
 \* ------------------------------------------------------------------ the machine
+Here == TSt(cur, ti, saved)
 Init == /\ cur \in TypesUpTo(Depth) /\ ti = <<>> /\ saved = <<>> /\ ops = 0 /\ hist = <<>> /\ done = FALSE /\ fails = {} /\ init = cur
-Step(op, c, t, s, f) == /\ cur' = c /\ ti' = t /\ saved' = s /\ ops' = ops + 1 /\ fails' = f /\ UNCHANGED <<done, init>>
-                        /\ hist' = IF Record THEN Append(hist, op) ELSE hist
-Match(P, U) == LET r == MatchP(P, U, ti) IN
-               Step(Op("match", P, U, "", <<>>), cur, r[2], saved, MatchClauses(P, U, ti, r[2], r[1], FALSE))
-SubstCur == LET r == TSubst(cur, ti) IN Step(Op("subst", NoT, NoT, "", <<>>), r, ti, saved, SubstClauses(cur, ti, r))
-Subst2 == LET r2 == TSubst(TSubst(cur, ti), saved) IN
-          Step(Op("subst2", NoT, NoT, "", Compose(ti, saved)), cur, ti, saved, Subst2Clauses(cur, ti, saved, r2, TSubst(cur, Compose(ti, saved))))
-Fresh == ti # <<>> /\ Step(Op("fresh", NoT, NoT, "", <<>>), cur, <<>>, saved, {})
-SetInst(s) == s # ti /\ Step(Op("inst", NoT, NoT, "", s), cur, s, saved, {})
-Save == saved # ti /\ Step(Op("save", NoT, NoT, "", <<>>), cur, ti, ti, {})
-ConvCur == Step(Op("conv", NoT, NoT, "", <<>>), IF HasSTV(cur) THEN cur ELSE Conv(cur), ti, saved, {})
-Wrapped(c) == CASE c = "list" -> TC1("list", cur) [] c = "dom" -> FunT(cur, NatT) [] OTHER -> FunT(SA, cur)
-Wrap(c) == TSize(cur) <= 7 /\ Step(Op("wrap", NoT, NoT, c, <<>>), Wrapped(c), ti, saved, {})
-Cmp(U) == Step(Op("cmp", NoT, U, "", <<>>), cur, ti, saved, PairClauses(cur, U, RefPair(cur, U)))
-Finish == /\ Record /\ ~done /\ (IF EmitAll THEN TRUE ELSE ops = MaxOps) /\ done' = TRUE
+\* one step: the transition function, and the statement's clauses applied to what the reference itself answers
+Step(op) == LET n == TyNext(Here, op) IN
+            /\ cur' = n.cur /\ ti' = n.ti /\ saved' = n.saved /\ ops' = ops + 1 /\ UNCHANGED <<done, init>>
+            /\ fails' = TyClauses(Here, op, n, n.out, TyObs(Here, op))
+            /\ hist' = IF Record THEN Append(hist, op) ELSE hist
+Match(P, U) == Step(TOp("match", P, U, "", <<>>))
+SubstCur == Step(TOp("subst", NoT, NoT, "", <<>>))
+Subst2 == Step(TOp("subst2", NoT, NoT, "", Compose(ti, saved)))
+Fresh == ti # <<>> /\ Step(TOp("fresh", NoT, NoT, "", <<>>))
+SetInst(s) == s # ti /\ Step(TOp("inst", NoT, NoT, "", s))
+Save == saved # ti /\ Step(TOp("save", NoT, NoT, "", <<>>))
+ConvCur == Step(TOp("conv", NoT, NoT, "", <<>>))
+Wrap(c) == TSize(cur) <= 7 /\ Step(TOp("wrap", NoT, NoT, c, <<>>))
+Cmp(U) == Step(TOp("cmp", NoT, U, "", <<>>))
+Cmp3(U, V) == Step(TOp("cmp3", U, V, "", <<>>))
+Look == Step(TOp("look", NoT, NoT, "", <<>>))
+Finish == /\ Record /\ ~done /\ (IF EmitAll THEN ops >= 1 ELSE ops = MaxOps) /\ done' = TRUE
           /\ PrintT(<<"X03T", ToJson([init |-> init, steps |-> hist, log |-> IF EmitAll THEN "last" ELSE "all"])>>)
           /\ UNCHANGED <<cur, ti, saved, ops, hist, fails, init>>
 Act == /\ ~done /\ ops < MaxOps
@@ -92,6 +72,8 @@ Act == /\ ~done /\ ops < MaxOps
           \/ "conv" \in Kinds /\ ConvCur
           \/ "wrap" \in Kinds /\ \E c \in {"list", "dom", "rng"} : Wrap(c)
           \/ "cmp" \in Kinds /\ \E U \in CmpSet : Cmp(U)
+          \/ "cmp3" \in Kinds /\ \E U \in CmpSmall, V \in Cmp3Set : Cmp3(U, V)
+          \/ "look" \in Kinds /\ Look
 Next == Act \/ Finish
 Spec == Init /\ [][Next]_vars
 
@@ -109,5 +91,5 @@ MatcherIsReference == \A P \in Pats : \A U \in Targs \cup {cur} :
                         LET r == MatchP(P, U, ti) ref == TMatch(P, U, ti) IN (r[1] = (ref # ErrAL)) /\ (r[1] => ALSet(r[2]) = ALSet(ref))
 \* the coded orders are total orders consistent with equality (cur against CmpSet, and transitivity through CmpSet)
 OrdersLawful == ops = 0 => \A U \in CmpSet : /\ PairClauses(cur, U, RefPair(cur, U)) = {}
-                                              /\ \A V \in CmpSet : TripleClauses(RefTriple(cur, U, V)) = {}
+                                              /\ \A V \in CmpSmall : TripleClauses(RefTriple(cur, U, V)) = {}
 =============================================================================
